@@ -626,10 +626,18 @@ def judge(prog, backend, cfg, get):
 
 def work(shard):
     """shard = (program index, backend, n, [config indexes]) -> [(config index, run summary)]."""
+    import resource
+    import time
     _load()
     pi, backend, n, idxs = shard
     cfgs = configs(n)
-    return [(ci, run_config(PROGRAMS[pi], backend, cfgs[ci])) for ci in idxs]
+    t0 = time.time()
+    c0 = time.process_time()
+    r0 = resource.getrusage(resource.RUSAGE_CHILDREN)
+    out = [(ci, run_config(PROGRAMS[pi], backend, cfgs[ci])) for ci in idxs]
+    r1 = resource.getrusage(resource.RUSAGE_CHILDREN)
+    cost = (time.time() - t0, time.process_time() - c0, r1.ru_utime + r1.ru_stime - r0.ru_utime - r0.ru_stime)
+    return out, cost
 
 
 def run(ctx):
@@ -653,7 +661,10 @@ def run(ctx):
                 shards.append((pi, backend, n, g[k:k + step]))
     results = ctx.pmap(work, shards)
     table = {}
-    for sh, res in zip(shards, results):
+    cost = {b: [0.0, 0.0, 0.0] for b in BACKENDS}
+    for sh, (res, c) in zip(shards, results):
+        for k in range(3):
+            cost[sh[1]][k] += c[k]
         for ci, summ in res:
             table.setdefault((sh[0], sh[1]), {})[cfgs[ci]] = summ
     cov = {"evaluations": 0, "distinct_nontrivial": 0, "configs_with_eviction": 0, "configs_with_warm_start": 0,
@@ -695,6 +706,8 @@ def run(ctx):
     cov["distinct_outcomes"] = len(outcomes)
     cov["reference_runs_ending_in_a_fault"] = sum(1 for v in ref_terms.values() if not v.startswith("end"))
     cov["per_backend"] = per_backend
+    cov["cost_s_wall_cpu_compiler"] = {b: [round(x, 1) for x in v] for b, v in cost.items()}
+    cov["shards"] = len(shards)
     cov["reference_runs"] = ref_terms
     cov["samples"] = samples
     cov["exhaustive"] = True
